@@ -283,11 +283,41 @@ fn main() {
             }
         }
     });
+    // combinations of header fields (a guard keyed on several fields at once): every content type x
+    // 12 versions x every high byte of the declared length (low byte 00 / ff), complete records
+    let versions: [u16; 12] = [0x0300, 0x0301, 0x0302, 0x0303, 0x0304, 0x0200, 0x0002, 0x0100, 0xfeff, 0xfefd, 0x0000, 0xffff];
+    let grid = par_run(run.threads, 256, |ty, sink| {
+        let mut buf = vec![0u8; 5 + 16640 + 4];
+        for &ver in &versions {
+            for hi in 0..=0x41usize {
+                for lo in [0x00usize, 0xff] {
+                    let len = (hi << 8) | lo;
+                    if len > 16640 {
+                        continue;
+                    }
+                    buf[0] = ty as u8;
+                    buf[1] = (ver >> 8) as u8;
+                    buf[2] = ver as u8;
+                    buf[3] = hi as u8;
+                    buf[4] = lo as u8;
+                    for t in [&RAW_RECORD, &ENCRYPTED] {
+                        let (g, r) = check_case(run.prop, t, &buf[..5 + len + 4], sink);
+                        sink.count("content type x version x length grid", if g.is_ok() { "accepted" } else { "REJECTED" });
+                        if !matches!(r, Ref::Must(..)) {
+                            machinery_failure(run.prop, "grid record not well-formed for the reference");
+                        }
+                    }
+                }
+            }
+        }
+    });
+    let mut sink = sink;
+    sink.merge(grid);
     let mut cov = Map::new();
     cov.insert("exhaustive".into(), json!(true));
     cov.insert("fields".into(), json!(fs.iter().filter(|f| f.bits > 0).map(|f| json!({"field": f.name, "values": 1u32 << f.bits, "entry_points": f.targets.iter().map(|t| t.name).collect::<Vec<_>>()})).collect::<Vec<_>>()));
     cov.insert("rule".into(), json!(
-        "for each enumerated field that does not select the structure being parsed: an otherwise well-formed enclosing structure with the field ranging over its entire domain (256 or 65536 values; both axes for two-byte pairs), parsed through every entry point exposing the field; oracle: accepted, and the whole decoded value equals the strict reference decode (the field equals the wire value, nothing else changes). Distinct by construction; non-trivial: every case"));
+        "for each enumerated field that does not select the structure being parsed: an otherwise well-formed enclosing structure with the field ranging over its entire domain (256 or 65536 values; both axes for two-byte pairs), parsed through every entry point exposing the field; oracle: accepted, and the whole decoded value equals the strict reference decode (the field equals the wire value, nothing else changes). Plus, for the raw / encrypted record envelope, the grid of every content type x 12 versions x every high byte of the declared length (complete records). Distinct by construction; non-trivial: every case"));
     let code = run.finish(
         &sink,
         cov,
